@@ -62,6 +62,18 @@ func (ex *Exec) mkKeyKind(id *Term, priv, hashed bool) Value {
 			for i := range sig {
 				sig[i] = mkApp(fmt.Sprintf("sign_n%d_o%d", len(msg), i), 8, all...)
 			}
+			// signatures of different (key, message) pairs of one run are different
+			// byte strings (part of the ideal-signature contract: no collisions)
+			for _, r := range ex.signs {
+				if len(r.sig) != len(sig) {
+					continue
+				}
+				if len(r.msg) == len(msg) {
+					ex.addAxiom(mkOr(mkNot(ex.strEq(r.sig, sig)), mkAnd(mkEq(r.id, id), ex.strEq(r.msg, msg))))
+				} else {
+					ex.addAxiom(mkNot(ex.strEq(r.sig, sig)))
+				}
+			}
 			ex.signs = append(ex.signs, &signRec{id: id, msg: msg, sig: sig})
 			return Tuple{termsToValues(sig), Iface{}}
 		}
